@@ -448,7 +448,11 @@ impl RtpsReaderProxy {
                         &[&info_dst, &gap_submessage, &heartbeat_submessage],
                         guid_prefix,
                     );
-                    message_writer.write_message(rtps_message.buffer(), self.unicast_locator_list())
+                    message_writer
+                        .write_message(rtps_message.buffer(), self.unicast_locator_list());
+                    // only the hole has been announced: the change itself is sent next
+                    self.set_highest_sent_seq_num(gap_end_sequence_number);
+                    continue;
                 } else {
                     let seq_num_min = changes.iter().map(|cc| cc.sequence_number).min();
                     let seq_num_max = changes.iter().map(|cc| cc.sequence_number).max();
